@@ -148,8 +148,13 @@ func (m *c29Model) put(name, v string, add bool) {
 	case c29ClsConnection:
 		m.conn = v // single-valued: an earlier value is overwritten
 		m.connEarlier = nil
-	case c29ClsTrailer:
-		m.trailer = []string{c29Canon(v, m.normOff)}
+	case c29ClsTrailer: // the value is a comma separated list of field names; it replaces what was announced before
+		m.trailer = nil
+		for _, t := range strings.Split(v, ",") {
+			if t = c29TrimOWS(t); t != "" {
+				m.trailer = append(m.trailer, c29Canon(t, m.normOff))
+			}
+		}
 	case c29ClsCookie:
 		if m.resp { // one Set-Cookie value = one cookie; its key is the text before '=' (the whole value if there is none)
 			k, _, _ := strings.Cut(v, "=")
@@ -274,6 +279,32 @@ func (m *c29Model) want(n string, cookieJoined bool, dst []string) []string {
 	return dst
 }
 
+// announced: n is an ordinary name that the Trailer field announces (such a field is sent in the trailer block).
+func (m *c29Model) announced(n string) bool {
+	if m.class(n) != c29ClsOrdinary {
+		return false
+	}
+	for _, t := range m.trailer {
+		if t == n {
+			return true
+		}
+	}
+	return false
+}
+
+// announcedBeforeOther: a stored field that is announced as a trailer is followed by a stored field that is not.
+func (m *c29Model) announcedBeforeOther() bool {
+	seen := false
+	for _, f := range m.fields {
+		if m.announced(f.K) {
+			seen = true
+		} else if seen {
+			return true
+		}
+	}
+	return false
+}
+
 func (m *c29Model) key() string {
 	var sb strings.Builder
 	sb.WriteByte('0' + m.origin)
@@ -343,6 +374,10 @@ func (o c29Op) String() string {
 var c29Names = []string{"X-A", "x-a", "X-B", "Content-Type", "Content-Length", "Host", "User-Agent", "Connection", "Server", "Cookie", "Set-Cookie", "Trailer"}
 var c29Values = []string{"1", "2", "close"}
 
+// further values for the name Trailer: the announced names are names of the operation alphabet (in both letter cases,
+// one list of two), so that a stored field can be one that is announced as a trailer field
+var c29TrailerValues = []string{"X-B", "x-a", "X-A, X-B"}
+
 // values with embedded line breaks (CR and LF in both orders), used with Set/Add on the always-ordinary names
 var c29BreakValues = []string{"1\r\n2", "1\n2\r\n", "1\nX-B: 9\r\n", "1\r2\n"}
 var c29BreakNames = []string{"X-A", "x-a", "X-B"}
@@ -370,10 +405,13 @@ func c29TrimOWS(v string) string { return strings.Trim(v, " \t") }
 var c29RawReq = []string{
 	"GET / HTTP/1.1\r\nX-B: 1\r\nHost: h\r\nX-A: 1\r\nCookie: c=1; d=2\r\nX-A: 2\r\nContent-Type: t\r\nUser-Agent: ua\r\nX-A: 3\r\n\r\n",
 	"GET / HTTP/1.1\r\nAccept: a\r\nCookie: c=1\r\nHost: h\r\nAccept: b\r\nAccept: c\r\n\r\n",
+	// a Trailer line in the middle announces a name that has values in front of and behind it, between other names
+	"GET / HTTP/1.1\r\nHost: h\r\nX-B: 1\r\nX-A: 1\r\nAccept: a\r\nTrailer: X-A\r\nX-B: 2\r\nX-A: 2\r\nAccept: b\r\nX-B: 3\r\n\r\n",
 }
 var c29RawResp = []string{
 	"HTTP/1.1 200 OK\r\nX-B: 1\r\nX-A: 1\r\nSet-Cookie: c=1\r\nX-A: 2\r\nServer: s\r\nContent-Type: t\r\nSet-Cookie: d=2\r\nContent-Length: 0\r\nX-A: 3\r\n\r\n",
 	"HTTP/1.1 200 OK\r\nAccept: a\r\nSet-Cookie: c=1\r\nAccept: b\r\nContent-Length: 0\r\nAccept: c\r\n\r\n",
+	"HTTP/1.1 200 OK\r\nX-B: 1\r\nX-A: 1\r\nAccept: a\r\nTrailer: X-A\r\nX-B: 2\r\nContent-Length: 0\r\nX-A: 2\r\nAccept: b\r\nX-B: 3\r\n\r\n",
 }
 
 func c29Alphabet() []c29Op {
@@ -390,6 +428,11 @@ func c29Alphabet() []c29Op {
 			for _, v := range c29BreakValues {
 				ops = append(ops, c29Op{k, n, v})
 			}
+		}
+	}
+	for _, k := range []string{"Set", "Add"} {
+		for _, v := range c29TrailerValues {
+			ops = append(ops, c29Op{k, "Trailer", v})
 		}
 	}
 	for _, n := range c29Names {
@@ -475,6 +518,10 @@ type c29Case struct {
 type c29Ctx struct {
 	r             *vrt.R
 	resp, normOff bool
+	// counters (write->read transitions with a stored field that is announced in Trailer; of these, with a further
+	// field stored behind it; trailer blocks written, read back and compared)
+	nExcl, nExclLater, nTrailerBlocks int64
+	finalLen                          int // length of the path being run: only its last operation is counted
 	// scratch
 	allBuf  []c29KV
 	wantBuf []string
@@ -606,7 +653,31 @@ func (c *c29Ctx) apply(h *c29Real, m *c29Model, o c29Op, path []c29Op) (bool, bo
 		if !h.resp && *m.singleSlot("Host") == "" {
 			return false, false // an HTTP/1.1 request header without Host is (rightly) refused by Read
 		}
+		// A field whose name is announced in Trailer is, as documented ("Headers that set as Trailer will not represent.
+		// Use TrailerHeader for trailers"), not part of the header block: it travels in the trailer block (below).
 		before := c29NonFraming(h.all(nil))
+		nExcluded := 0
+		if len(m.trailer) > 0 {
+			kept := before[:0]
+			for _, f := range before {
+				if m.announced(f.K) {
+					nExcluded++
+					continue
+				}
+				kept = append(kept, f)
+			}
+			before = kept
+		}
+		sigPfx := "write-read:"
+		if nExcluded > 0 {
+			sigPfx = "write-read:trailer-field-stored:"
+			if len(path) == c.finalLen {
+				c.nExcl++
+				if m.announcedBeforeOther() {
+					c.nExclLater++
+				}
+			}
+		}
 		var buf bytes.Buffer
 		bw := bufio.NewWriter(&buf)
 		var err error
@@ -652,16 +723,64 @@ func (c *c29Ctx) apply(h *c29Real, m *c29Model, o c29Op, path []c29Op) (bool, bo
 				}
 			}
 			if !known {
-				c.r.Violation("write-read:additional-field-name", fmt.Sprintf("%s: reading back yields the field name %q that was not there before writing: before %q, after %q (wire %q)", c.descr(path), f.K, before, after, wire), c.mkCase(path))
+				c.r.Violation(sigPfx+"additional-field-name", fmt.Sprintf("%s: reading back yields the field name %q that was not there before writing: before %q, after %q (wire %q)", c.descr(path), f.K, before, after, wire), c.mkCase(path))
 				return true, true
 			}
 		}
 		if s := c29ShapeKV(after, before); s != "" {
-			c.r.Violation("write-read:fields-"+s, fmt.Sprintf("%s: non-framing fields before writing %v, after reading back %v (wire %q)", c.descr(path), before, after, wire), c.mkCase(path))
+			c.r.Violation(sigPfx+"fields-"+s, fmt.Sprintf("%s: non-framing fields (without those announced in Trailer) before writing %v, after reading back %v (wire %q)", c.descr(path), before, after, wire), c.mkCase(path))
 			return true, true
+		}
+		// the trailer block: one line per announced name, carrying the (first) value stored under that name
+		if len(m.trailer) > 0 {
+			var tb []byte
+			if h.resp {
+				tb = append(tb, h.rs.TrailerHeader()...)
+			} else {
+				tb = append(tb, h.rq.TrailerHeader()...)
+			}
+			tn := c29NewReal(h.resp, c.normOff)
+			tbr := bufio.NewReader(bytes.NewReader(tb))
+			if h.resp {
+				err = tn.rs.ReadTrailer(tbr)
+			} else {
+				err = tn.rq.ReadTrailer(tbr)
+			}
+			if err != nil || tbr.Buffered() != 0 {
+				c.r.Violation("write-read:trailer-block-read-fails", fmt.Sprintf("%s: the trailer block %q cannot be read back: %v, %d bytes left", c.descr(path), tb, err, tbr.Buffered()), c.mkCase(path))
+				return true, true
+			}
+			var wantT, gotT []c29KV
+			for _, t := range m.trailer {
+				if c.wantBuf = m.want(t, false, c.wantBuf); len(c.wantBuf) > 0 {
+					wantT = append(wantT, c29KV{t, c29TrimOWS(c.wantBuf[0])})
+				}
+			}
+			for _, f := range c29NonFraming(tn.all(nil)) {
+				if f.V == "" && m.announced(f.K) && len(m.want(f.K, false, nil)) == 0 {
+					continue // an announced name without a stored value: an empty line for it is left open
+				}
+				gotT = append(gotT, c29KV{f.K, c29TrimOWS(f.V)})
+			}
+			if s := c29ShapeKV(gotT, wantT); s != "" {
+				c.r.Violation("write-read:trailer-block-fields-"+s, fmt.Sprintf("%s: announced %q, model wants the trailer block to carry %v, reading the trailer block %q back yields %v", c.descr(path), m.trailer, wantT, tb, gotT), c.mkCase(path))
+				return true, true
+			}
+			if len(path) == c.finalLen {
+				c.nTrailerBlocks++
+			}
 		}
 		*h = *n
 		m.origin = 2
+		if nExcluded > 0 { // continue on the header block that was read back: the announced fields are not in it
+			kept := m.fields[:0]
+			for _, f := range m.fields {
+				if !m.announced(f.K) {
+					kept = append(kept, f)
+				}
+			}
+			m.fields = kept
+		}
 		for i := range m.fields {
 			m.fields[i].V = c29TrimOWS(m.fields[i].V)
 		}
@@ -873,6 +992,7 @@ func (c *c29Ctx) check(h *c29Real, m *c29Model, path []c29Op) bool {
 func (c *c29Ctx) run(path []c29Op, checkFrom int) (*c29Model, bool, bool) {
 	h := c29NewReal(c.resp, c.normOff)
 	m := c29NewModel(c.resp, c.normOff)
+	c.finalLen = len(path)
 	if checkFrom <= 0 && c.check(h, m, path[:0]) {
 		return m, true, true
 	}
@@ -956,14 +1076,16 @@ func TestVerif_C29(t *testing.T) {
 	rawDepth := vrt.Pick(r, 2, 3) // depth explored after a header parsed from hand-written wire bytes
 	// second start state: a header that already holds a multi-valued name behind another name, and three cookies
 	preamble := []c29Op{{"Add", "X-B", "1"}, {"Add", "X-A", "1"}, {"Add", "X-A", "2"}, {"Add", "X-A", "close"}, {"SetCookie", "a", "1"}, {"SetCookie", "b", "1"}, {"SetCookie", "c", "1"}, {"Set", "Host", "h"}}
-	r.Rule(fmt.Sprintf("explicit-state BFS over RequestHeader and ResponseHeader, header-name normalisation on and off: all sequences of at most %d operations over {Set,Add}x%q x%q, {Set,Add}x%q x line-break values %q (model: every CR/LF becomes a space), Del x names, "+
+	r.Rule(fmt.Sprintf("explicit-state BFS over RequestHeader and ResponseHeader, header-name normalisation on and off: all sequences of at most %d operations over {Set,Add}x%q x%q, {Set,Add}x%q x line-break values %q (model: every CR/LF becomes a space), {Set,Add}(Trailer) x field-name lists %q (names of the alphabet, so that stored fields are announced as trailer fields), Del x names, "+
 		"SetCookie{a,b}x{1,2}, DelCookie{a,b}, CopyTo (continue on the copy), write->read (continue on the header read back) (%d ops) from an empty header, of at most %d operations after the preamble %v, and of at most %d operations after reading each of the hand-written heads %q / %q; "+
 		"states de-duplicated on the reference model's canonical state; every transition replays the parent's path on a fresh header and checks PeekAll, Peek, All, PeekKeys against the model "+
-		"(ordered multimap per canonical name; special names single-valued; cookies accumulate) and, for write->read, the non-framing field sequence before/after; "+
-		"non-trivial: states with two or more values under one name or two or more cookies", depth, c29Names, c29Values, c29BreakNames, c29BreakValues, len(ops), preDepth, preamble, rawDepth, c29RawReq, c29RawResp))
+		"(ordered multimap per canonical name; special names single-valued; cookies accumulate; Trailer = the list of announced names, replaced by every Set/Add) and, for write->read, the non-framing field sequence before/after, "+
+		"where a field whose name is announced in Trailer is (as documented) left out of the header block and every other field must survive in place; with a Trailer announced, the trailer block (TrailerHeader) is read back with ReadTrailer and must carry, per announced name that has a value, one line with its first value; "+
+		"non-trivial: states with two or more values under one name or two or more cookies", depth, c29Names, c29Values, c29BreakNames, c29BreakValues, c29TrailerValues, len(ops), preDepth, preamble, rawDepth, c29RawReq, c29RawResp))
 	r.Assume("Set replaces the first value of an ordinary name and leaves further values of that name in place (literal reading of the statement; it matches the implementation)",
 		"framing fields (Content-Length, Transfer-Encoding, Connection), Date and default Content-Type values are outside the write->read comparison; after a read-back the model takes the framing fields over from the implementation",
-		"the order of fields of different names in All() is not compared with the model, only the order of the values under each name")
+		"the order of fields of different names in All() is not compared with the model, only the order of the values under each name",
+		"the trailer block is compared for the first value of every announced name only (TrailerHeader writes one line per announced name); an empty line for an announced name without a stored value is left open")
 	r.Set("max_depth", depth)
 	r.Set("max_depth_after_preamble", preDepth)
 	r.Set("max_depth_after_raw_head", rawDepth)
@@ -1003,7 +1125,7 @@ func TestVerif_C29(t *testing.T) {
 				lastLevel := level+1 == d
 				var mu sync.Mutex
 				var next [][]uint8
-				var nStates, nTrans, nMulti, nNA, nPruned, nWR, nCopy int64
+				var nStates, nTrans, nMulti, nNA, nPruned, nWR, nCopy, nExcl, nExclLater, nTB int64
 				var leaf *c29Set
 				if lastLevel {
 					leaf = newC29Set()
@@ -1067,6 +1189,9 @@ func TestVerif_C29(t *testing.T) {
 					nPruned += lp
 					nWR += lwr
 					nCopy += lcp
+					nExcl += c.nExcl
+					nExclLater += c.nExclLater
+					nTB += c.nTrailerBlocks
 					nTrans += int64(len(ops)) - lna
 					mu.Unlock()
 					r.Eval(len(ops) - int(lna))
@@ -1078,6 +1203,9 @@ func TestVerif_C29(t *testing.T) {
 				r.Add("transitions_ending_in_a_violation(not expanded)", nPruned)
 				r.Add("write_read_transitions", nWR)
 				r.Add("copyto_transitions", nCopy)
+				r.Add("write_read_paths_with_a_stored_field_announced_in_trailer", nExcl)
+				r.Add("write_read_paths_with_a_stored_field_announced_in_trailer_and_a_field_behind_it", nExclLater)
+				r.Add("trailer_blocks_read_back_and_compared", nTB)
 				r.Add(fmt.Sprintf("states_new_at_depth_%d", level+1), nStates)
 				frontier = next
 			}
